@@ -18,7 +18,7 @@ PID = 'C14'
 LEVEL = 'model_checking'
 RULE = ('MMC x init {identity, covariance, random, SPD array (C order), the same array in Fortran order} x budgets max_iter = 1..K '
         '(K = 8 quick / 30 thorough) x tol {1e-3, 1e-6} x datasets, each state also reached by a second fit of the same object; diagonal=True x '
-        'diagonal_c {0.5, 1, 10} x init x budgets; MMC_Supervised x init x seeds; state = (configuration, budget); '
+        'diagonal_c {0.5, 1, 10} x init x budgets; MMC_Supervised x init x seeds; 64 (quick) / 400 (thorough) random pair problems with default options and max_iter = 60; state = (configuration, budget); '
         'non-trivial = learned matrix differs from the initial matrix')
 ASSUMPTIONS = ['Budget t = (sum over similar pairs of d^2 under the initial matrix) / 100, with the initial matrix rebuilt '
                'independently by the harness; tolerance factor 1.0101 (the algorithm stops projecting at relative error 0.01).',
@@ -32,9 +32,27 @@ def V(site, clause, msg, triggers=(), **detail):
     return dict(site=site, clause=clause, msg=msg, triggers=list(triggers), detail=detail)
 
 
+def random_problem(k):
+    """k-th member of a fixed family of small random pair problems (arbitrary pair labels, anisotropic features)."""
+    rng = np.random.RandomState(14000 + k)
+    n = rng.randint(8, 30)
+    d = rng.randint(2, 5)
+    X = np.round(rng.randn(n, d) * rng.uniform(0.5, 5, size=d) * 64) / 64
+    idx = rng.randint(n, size=(rng.randint(10, 50), 2))
+    idx = idx[idx[:, 0] != idx[:, 1]]
+    y = np.where(rng.rand(len(idx)) < 0.5, 1, -1)
+    y[0], y[1] = 1, -1
+    P = X[idx]
+    keep = np.sqrt(((P[:, 0] - P[:, 1]) ** 2).sum(1)) > 2.0 ** -4          # no collapsed pairs
+    return P[keep], y[keep]
+
+
 def cases(tier, seed):
     b = BOUNDS[tier]
     out = []
+    nrand = 64 if tier == 'quick' else 400
+    for k in range(0, nrand, 4):
+        out.append(('MMC/random_problems/%d-%d' % (k, k + 3), ('rand', 'random', 'identity', list(range(k, k + 4)), seed)))
     for dsn in b['datasets']:
         for ini in INITS:
             out.append(('MMC/%s/%s/full' % (dsn, ini), ('full', dsn, ini, b['K'], seed)))
@@ -45,7 +63,7 @@ def cases(tier, seed):
 
 
 def cost(spec):
-    return 5 if spec[0] == 'full' else 2
+    return 9 if spec[0] == 'rand' else (5 if spec[0] == 'full' else 2)
 
 
 def init_value(ini, d):
@@ -101,6 +119,38 @@ def judge_full(site, M, A0, pos_diff, neg_diff, tr, viol, stats):
 def run_case(spec):
     warnings.simplefilter('ignore')
     kind, dsn, ini, K, seed = spec
+    if kind == 'rand':
+        # default options, a long budget: later projections may fail to converge and must then be discarded by the solver
+        viol, sigs = [], set()
+        stats = {'worst_budget_ratio': 0.0, 'worst_projection_residual': 0.0}
+        evals = 0
+        for k in K:
+            P, y = random_problem(k)
+            if (y == 1).sum() < 1 or (y == -1).sum() < 1:
+                continue
+            d = P.shape[2]
+            pos_diff = P[y == 1][:, 0] - P[y == 1][:, 1]
+            neg_diff = P[y == -1][:, 0] - P[y == -1][:, 1]
+            W = np.einsum('ij,ik->jk', pos_diff, pos_diff)
+            t = W.ravel().dot(np.eye(d).ravel()) / 100.0
+            R, _ = reference_projection(np.eye(d), W, t)
+            if (W.ravel().dot(R.ravel()) - t) / t >= 0.01:
+                stats['skipped_first_projection_does_not_converge'] = stats.get('skipped_first_projection_does_not_converge', 0) + 1
+                continue          # outside the property's domain ("max_proj large enough for one projection to converge")
+            for mi in (60,):
+                est = ml.MMC(max_iter=mi)
+                try:
+                    est.fit(P.copy(), y.copy())
+                except Exception as e:
+                    viol.append(V('MMC.fit', 'raises', 'random problem %d: fit raised %s: %s' % (k, type(e).__name__, str(e)[:100]), ['random_problem']))
+                    continue
+                evals += 1
+                g = judge_full('MMC.fit', est.get_mahalanobis_matrix(), np.eye(d), pos_diff, neg_diff, ['random_problem=%d' % k, 'max_iter=%d' % mi], viol, stats)
+                sigs.add(('rand', k, est.n_iter_, round(float(g), 4) if g is not None else None))
+        return dict(evals=evals, sigs=sigs, viol=viol, states=evals, transitions=evals,
+                    stats={k_: v for k_, v in stats.items() if not k_.startswith('worst_')},
+                    headroom={k_: v for k_, v in stats.items() if k_.startswith('worst_')},
+                    sample={'learner': 'MMC', 'family': 'random pair problems %s' % K, 'options': 'defaults, max_iter=60'})
     ds = data.dataset('R', seed) if dsn == 'R' else data.dataset(dsn)
     d = ds.d
     viol, sigs = [], set()
